@@ -37,7 +37,8 @@ CLAIMS = {
         "C02.decoder_reads_every_operand (kernel-checked, for EVERY well-formed memory operand - any base, index, scale, displacement, address size - "
         "the canonical ModRM/SIB/displacement encoding is read back by the reference decoder as that operand), C02.mov_load_every_disp (kernel-checked, "
         "SYMBOLIC in d: for each of the 16 base registers and EVERY d in -2^31..2^31-1 the model emits for `mov rax, [base+d]` exactly that canonical "
-        "encoding - Lemmas.MemLoad.mem_bytes / memBytes_canonical), C02.disp_field_reads_back + X86.leVal_assembleConst + toSigned_roundtrip (kernel-checked, for EVERY displacement value: the "
+        "encoding - Lemmas.MemLoad.mem_bytes / memBytes_canonical; C02.mov_load_text: the same at the TEXT level for `mov rax, [<base>+-0x<digits>]` "
+        "through filter, memory scanners, strtoul, tokenizer and lookups - Lemmas.MemText.mem_line), C02.disp_field_reads_back + X86.leVal_assembleConst + toSigned_roundtrip (kernel-checked, for EVERY displacement value: the "
         "bytes the model emits read back as the value and every signed disp8/disp32 is recovered), C11.swap_same_address / nobase_scale*_same_address "
         "(the NASM rewritings keep the address for every register valuation). Memory forms also store a small negative immediate. Tie: the family on the C implementation (thorough: all 17x16x4x13x2 "
         "shapes for mov, lea, paddb, vaddpd) incl. [base+rsp], [1*rsp+disp] shapes, option bytes NASM/STRICT and both mixed SIB settings, decoded and "
@@ -213,7 +214,8 @@ CLAIMS = {
    text="Theorems AL.Properties.C08.internal_has_room / plain_success_iff / growth_keeps_code / same_as_caller_buffer: on an internal "
         "instance the room check never fails, a plain run succeeds iff no code exceeds the reserve (same condition as a caller buffer with "
         "room), every call keeps all bytes before its start offset through any number of growths, and a successful call leaves the same "
-        "code at the same place and the same offset as on a caller buffer (the layout of C06/C13). Tie + oracle: internal instance vs "
+        "code at the same place and the same offset as on a caller buffer (the layout of C06/C13); internal_room_anywhere: the room check gives 20 "
+        "bytes of room at ANY position - also far beyond the current length after asm_set_offset - and keeps every earlier byte. Tie + oracle: internal instance vs "
         "40000-byte caller buffer at offsets -21..+21 around each growth point in plain/fitting(7,9,13,16)/counting mode and genuinely "
         "long programs; every growth is forced to MOVE the mapping; code behind the growth point is executed; fresh allocations are filled with "
         "ones (malloc returns indeterminate bytes).",
